@@ -1,6 +1,6 @@
 """C17 - #[instrument] preserves behaviour exactly and adds one well-formed span per call.
 
-Translation validation on a corpus: engines/kani/attributes/src/c17.rs holds 29 function
+Translation validation on a corpus: engines/kani/attributes/src/c17.rs holds 33 function
 pairs; each pair is one token stream emitted twice by `twin!` - once under the real
 `#[instrument(..)]` attribute (rustc expands the proc-macro from /repo/tracing-attributes
 at build time), once plain.  Per pair the solver decides for ALL argument values:
@@ -44,6 +44,10 @@ SYNC = {
     "p22": "impl Trait in return position",
     "p23": "[u8; 3] by value (skipped), loop in the body",
     "p24": "body emits tracing::event! on one path (must arrive inside the span)",
+    "p25": "plain free fn with a parameter literally named `_self`, skip of another arg, fields(k = _self as u32 + 1): "
+           "field must be named `_self`",
+    "p26": "method-style helper with first parameter `_self: &Hv` (recorded with Debug as `_self`), skip, "
+           "fields(k = _self.v + 1), early return",
 }
 ASYNC = {
     "a01": ("async fn, args skipped, one await pending n times", ("n0", "n2")),
@@ -51,9 +55,11 @@ ASYNC = {
     "a03": ("async fn with drop-counted by-value arg and &mut arg, two awaits", ("n0", "n1")),
     "a04": ("async method on &self with fields(v = self.v)", ("n0", "n2")),
     "a05": ("async-trait style fn returning Box::pin(async move {..}) (AsyncInfo::gen_async path)", ("n0", "n1")),
+    "a06": ("non-async fn whose tail is the qualified std::boxed::Box::pin(async move {..}), Send boxed future", ("n0", "n1")),
+    "a07": ("non-async fn whose tail is ::std::boxed::Box::pin(async move {..}), Send boxed future", ("n1",)),
 }
-QUICK_A = {"p01", "p03", "p08", "p10", "p12", "p16", "p20", "p22", "a01", "a03"}
-QUICK_B = {"p10", "p12", "p19", "a03_n0"}
+QUICK_A = {"p01", "p03", "p08", "p10", "p12", "p16", "p20", "p22", "p25", "p26", "a01", "a03"}
+QUICK_B = {"p10", "p12", "p19", "p25", "p26", "a03_n0", "a06_n0"}
 QUICK_K = {"p14"}
 REAL_REGISTRY = {"p01": "1 callsite", "p12": "3 callsites (span, ret, err), values formatted",
                  "p14": "1 callsite, name/level/target", "a01_n0": "async, one poll"}
@@ -72,7 +78,7 @@ for k, (d, ns) in ASYNC.items():
     hs.append(H("c17::c17_a_%s" % k, tier="quick" if k in QUICK_A else "thorough",
                 desc="no collector, max level TRACE (real dispatcher-less registry): twin equivalence incl. number of "
                      "polls, %s" % d,
-                sym="all arguments; leaf future pending n in 0..=2 polls (a05: n = 1 fixed, boxed dyn Future)"))
+                sym="all arguments; leaf future pending n in 0..=2 polls (a05/a06/a07: n = 1 fixed, boxed dyn Future)"))
     hs.append(H("c17::c17_a0_%s" % k, tier="thorough",
                 desc="no collector, max level OFF (pristine process): twin equivalence incl. number of polls, %s" % d,
                 sym="all arguments; leaf future pending n in 0..=2 polls"))
@@ -96,7 +102,7 @@ SPEC = {
     "group": G,
     "level": "translation_validation",
     "harnesses": hs,
-    "caps": {"jobs": 4, "mem_gb": 12, "quick_harness_timeout": 400, "thorough_harness_timeout": 1500},
+    "caps": {"jobs": 2, "mem_gb": 9.5, "quick_harness_timeout": 400, "thorough_harness_timeout": 1500},
     "functions": [
         "tracing_attributes::expand::{gen_function, gen_block} as *expanded code* (sync: span + guard before the block, "
         "ret/err closure wrapper; async: block moved into an async block wrapped in Instrumented; "
@@ -114,10 +120,10 @@ SPEC = {
     "sym": "every argument of every corpus function (u8/u16/u32/bool/[u8;3], drop-counted wrappers, receiver fields); "
            "collector interest in {sometimes, always}; async: pending count 0..=2 (symbolic without collector, one "
            "harness per count with collector)",
-    "bounds": "corpus of %d programs (24 sync, 5 async); all argument values; async leaf future pending <= 2 polls "
+    "bounds": "corpus of %d programs (26 sync, 7 async); all argument values; async leaf future pending <= 2 polls "
               "(<= 3 polls of the instrumented future); one call per harness; unwind 2..5 derived from field counts / "
               "registered callsites / the one 3-iteration loop, unwinding assertions on" % PROGRAMS,
-    "outside": "programs beyond the corpus (the attribute's input space is function items: this is validation of 29 "
+    "outside": "programs beyond the corpus (the attribute's input space is function items: this is validation of 33 "
                "translations, not a proof about the macro); `skip_all` (this tree's tracing-attributes does not implement "
                "it: the argument is ignored with a deprecation warning and every parameter is recorded); panic payload "
                "equality and behaviour while unwinding (Kani models panic=abort); interleaved polling of several "
@@ -150,7 +156,7 @@ SPEC = {
                        "technique": "per-program equivalence checking of the macro-expanded code against its plain twin, "
                                     "all inputs symbolic (Kani/CBMC)"},
     "manifest": {
-        "text": "Translation validation on a fixed corpus of 29 function pairs (24 sync, 5 async; argument patterns, return "
+        "text": "Translation validation on a fixed corpus of 33 function pairs (26 sync, 7 async; argument patterns, return "
                 "shapes and attribute arguments varied): for each pair CBMC decides over ALL argument values that the "
                 "#[instrument]-expanded function and its plain twin agree on return value / Ok-Err / final &mut state / "
                 "ordered side-effect log / number of argument drops / number of polls, under no collector and under a "
@@ -169,7 +175,7 @@ SPEC = {
                      "symbolic (Kani/CBMC)",
         "design_ref": "DESIGN.md §6 C17",
     },
-    "explanation": "Per-program solver-decided equivalence of #[instrument]-expanded code and its plain twin over a 29-program corpus.",
+    "explanation": "Per-program solver-decided equivalence of #[instrument]-expanded code and its plain twin over a 33-program corpus.",
 }
 
 
